@@ -4,6 +4,7 @@ import (
 	"context"
 	"encoding/binary"
 	"encoding/json"
+	"errors"
 	"fmt"
 	"math/big"
 	"sync"
@@ -73,7 +74,8 @@ type c06Op struct {
 	UID   string    `json:"uid,omitempty"`
 	B     uint64    `json:"b"`
 	Evs   []c06Ev   `json:"evs,omitempty"`
-	Look  int       `json:"look,omitempty"` // k = "chain": number of polls the events stay in the provider's answer
+	Look  int       `json:"look,omitempty"` // k = "chain": number of polls the events stay in the provider's answer; k = "perr": number of polls that fail
+	Mode  string    `json:"mode,omitempty"` // k = "perr": plain | canceled | deadline
 	Ups   []c06Up   `json:"ups,omitempty"`
 	Items []c06Item `json:"items,omitempty"`
 }
@@ -81,13 +83,19 @@ type c06Input struct {
 	Cfg    c06Cfg  `json:"cfg"`              // effective configuration (what the coordinator runs with)
 	Plugin bool    `json:"plugin,omitempty"` // drive ShouldAccept/ShouldTransmit of a factory-built plugin
 	Raw    string  `json:"raw,omitempty"`    // plugin mode: off-chain config JSON (default: derived from Cfg)
+	// plugin mode: the factory first builds and closes ANOTHER instance with this configuration
+	// (libocr calls NewReportingPlugin on one factory for every config); the instance under
+	// test is created at T0.  Nothing of the decoy may carry over.
+	Decoy  *c06Cfg  `json:"decoy,omitempty"`
+	T0     int64    `json:"t0,omitempty"`
 	IDs    []string `json:"ids"`             // dictionary for the ids of list items
 	Ops    []c06Op `json:"ops"`
 	End    int64   `json:"end"`
 }
 type c06Poll struct {
-	At int64 `json:"at"`
-	N  int   `json:"n"`
+	At  int64  `json:"at"`
+	N   int    `json:"n"`
+	Err string `json:"err,omitempty"` // the provider answered this poll with an error of this kind
 }
 // returned list item; ids that are not in the dictionary (never the case for a filter) are spelled out
 type c06OutItem struct {
@@ -116,6 +124,8 @@ type c06Events struct {
 	events []ocr2keepers.TransmitEvent
 	chain  []c06ChainEv
 	polls  []c06Poll
+	errMode string // the next errLeft polls fail with an error of this kind
+	errLeft int
 }
 type c06ChainEv struct {
 	ev   ocr2keepers.TransmitEvent
@@ -123,9 +133,37 @@ type c06ChainEv struct {
 	left int
 }
 
+// c06ProviderErr: what a provider may return: a plain failure, or one that wraps a context
+// error of its own making (a query / RPC timeout derived from the context it was given)
+func c06ProviderErr(mode string) error {
+	switch mode {
+	case "canceled":
+		return fmt.Errorf("event provider: request aborted: %w", context.Canceled)
+	case "deadline":
+		return fmt.Errorf("event provider: query timed out: %w", context.DeadlineExceeded)
+	}
+	return errors.New("event provider: connection refused")
+}
+
+func (f *c06Events) FailNext(mode string, n int) {
+	f.mu.Lock()
+	f.errMode, f.errLeft = mode, n
+	f.mu.Unlock()
+}
+func (f *c06Events) ResetPolls() {
+	f.mu.Lock()
+	f.polls = nil
+	f.mu.Unlock()
+}
+
 func (f *c06Events) GetLatestEvents(context.Context) ([]ocr2keepers.TransmitEvent, error) {
 	f.mu.Lock()
 	defer f.mu.Unlock()
+	if f.errLeft > 0 {
+		f.errLeft--
+		f.polls = append(f.polls, c06Poll{At: int64(time.Since(f.start)), Err: f.errMode})
+		return nil, c06ProviderErr(f.errMode)
+	}
 	out := append([]ocr2keepers.TransmitEvent(nil), f.events...)
 	keep := f.chain[:0]
 	for _, c := range f.chain {
@@ -274,18 +312,36 @@ func c06Run(t *testing.T, in c06Input, idx map[string]int) c06Impl {
 		// ShouldAcceptAttestedReport calls Accept for every upkeep without short-circuit, both
 		// coordinators go through the same states, and q's answers are the per-upkeep answers.
 		prov2 := &c06Events{start: start}
-		mkp := func(ev *c06Events) (ocr3types.ReportingPlugin[plugin.AutomationReportInfo], error) {
-			fac := plugin.NewReportingPluginFactory(&fakeLogProvider{}, ev, &fakeBlocks{}, &fakeRecoverable{}, fakeBuilder{}, &fakeGetter{}, &fakeRunnable{},
+		mkf := func(ev *c06Events) ocr3types.ReportingPluginFactory[plugin.AutomationReportInfo] {
+			return plugin.NewReportingPluginFactory(&fakeLogProvider{}, ev, &fakeBlocks{}, &fakeRecoverable{}, fakeBuilder{}, &fakeGetter{}, &fakeRunnable{},
 				runner.RunnerConfig{Workers: 4, WorkerQueueLength: 100, CacheExpire: 20 * time.Minute, CacheClean: 30 * time.Second},
 				&recEncoder{}, utg, wg, &fakeStateUpdater{}, quietLogger)
-			pl, _, err := fac.NewReportingPlugin(ctx, ocr3types.ReportingPluginConfig{N: 4, F: 1, OffchainConfig: []byte(raw)})
-			return pl, err
 		}
-		p, err := mkp(prov)
+		facP, facQ := mkf(prov), mkf(prov2)
+		if in.Decoy != nil {
+			draw := fmt.Sprintf(`{"performLockoutWindow":%d,"minConfirmations":%d}`, in.Decoy.WindowMs, in.Decoy.MinConf)
+			var decoys []ocr3types.ReportingPlugin[plugin.AutomationReportInfo]
+			for _, f := range []ocr3types.ReportingPluginFactory[plugin.AutomationReportInfo]{facP, facQ} {
+				if d, _, err := f.NewReportingPlugin(ctx, ocr3types.ReportingPluginConfig{N: 4, F: 1, OffchainConfig: []byte(draw)}); err == nil {
+					decoys = append(decoys, d)
+				}
+			}
+			time.Sleep(1500 * time.Millisecond)
+			for _, d := range decoys {
+				d.Close()
+			}
+			c06SleepUntil(start, in.T0)
+			prov.ResetPolls()
+			prov2.ResetPolls()
+		}
+		p, _, err := facP.NewReportingPlugin(ctx, ocr3types.ReportingPluginConfig{N: 4, F: 1, OffchainConfig: []byte(raw)})
 		if err != nil {
 			return c06Impl{Err: "NewReportingPlugin: " + err.Error(), Ans: []any{}, Polls: []c06Poll{}}
 		}
-		q := must(mkp(prov2))
+		q, _, err := facQ.NewReportingPlugin(ctx, ocr3types.ReportingPluginConfig{N: 4, F: 1, OffchainConfig: []byte(raw)})
+		if err != nil {
+			return c06Impl{Err: "NewReportingPlugin: " + err.Error(), Ans: []any{}, Polls: []c06Poll{}}
+		}
 		synctest.Wait()
 		for _, op := range in.Ops {
 			c06SleepUntil(start, op.At)
@@ -309,6 +365,10 @@ func c06Run(t *testing.T, in c06Input, idx map[string]int) c06Impl {
 			case "chain":
 				prov.Chain(c06ToEvents(op.Evs), op.Look)
 				prov2.Chain(c06ToEvents(op.Evs), op.Look)
+				impl.Ans = append(impl.Ans, nil)
+			case "perr":
+				prov.FailNext(op.Mode, op.Look)
+				prov2.FailNext(op.Mode, op.Look)
 				impl.Ans = append(impl.Ans, nil)
 			default:
 				impl.Err = "plugin mode: unsupported op " + op.K
@@ -353,6 +413,9 @@ func c06Run(t *testing.T, in c06Input, idx map[string]int) c06Impl {
 			impl.Ans = append(impl.Ans, nil)
 		case "chain":
 			prov.Chain(c06ToEvents(op.Evs), op.Look)
+			impl.Ans = append(impl.Ans, nil)
+		case "perr":
+			prov.FailNext(op.Mode, op.Look)
 			impl.Ans = append(impl.Ans, nil)
 		case "restart":
 			c.Close()
@@ -583,6 +646,14 @@ func (g *c06Gen) genChain() {
 	g.evs = append(g.evs, ev) // polls on the way are worth visiting as window marks
 }
 
+// genProviderError: the next one or two polls are answered with an error — plain, or wrapping a
+// context error of the provider's own making; polling must go on at the next tick
+func (g *c06Gen) genProviderError() {
+	mode := []string{"plain", "canceled", "deadline"}[g.r.Intn(3)]
+	g.em.Hit("provider-error:" + mode)
+	g.add(c06Op{K: "perr", Mode: mode, Look: g.r.Range(1, 2)})
+}
+
 func (g *c06Gen) add(op c06Op) {
 	op.At = g.cur
 	g.in.Ops = append(g.in.Ops, op)
@@ -732,7 +803,18 @@ func c06GenCase(r *Rng, em *Emitter, c07 bool, plugin bool) c06Input {
 		if g.in.Cfg.WindowMs == 0 {
 			g.in.Cfg.WindowMs = 5000
 		}
-		g.cur = 1500*c06Ms + 137*c06Ms
+		if r.Chance(60) {
+			// a decoy instance on the same factory first, with another window and another minimum
+			d := c06Cfg{MinConf: []int{0, 2, 5}[r.Intn(3)], WindowMs: []int64{1000, 3000, 1200000}[r.Intn(3)]}
+			if d.MinConf == g.in.Cfg.MinConf {
+				d.MinConf++
+			}
+			g.in.Decoy = &d
+			g.in.T0 = 12500 * c06Ms
+			g.grid = g.in.T0 % c06Sec
+			em.Hit("plugin:decoy-first")
+		}
+		g.cur = g.in.T0 + 1500*c06Ms + 137*c06Ms
 	} else {
 		g.cur = 137 * c06Ms
 	}
@@ -761,10 +843,12 @@ func c06GenCase(r *Rng, em *Emitter, c07 bool, plugin bool) c06Input {
 				g.add(c06Op{K: "acceptReport", Ups: g.ups()})
 			case k < 75:
 				g.add(c06Op{K: "transmitReport", Ups: g.ups()})
-			case k < 90:
+			case k < 88:
 				g.genEvents()
-			default:
+			case k < 97:
 				g.genChain()
+			default:
+				g.genProviderError()
 			}
 		case c07:
 			switch {
@@ -772,10 +856,12 @@ func c06GenCase(r *Rng, em *Emitter, c07 bool, plugin bool) c06Input {
 				g.genAccept()
 			case k < 27:
 				g.genTransmit()
-			case k < 43:
+			case k < 42:
 				g.genEvents()
-			case k < 50:
+			case k < 49:
 				g.genChain()
+			case k < 51:
+				g.genProviderError()
 			case k < 52:
 				g.restart()
 			case k < 68:
@@ -791,10 +877,12 @@ func c06GenCase(r *Rng, em *Emitter, c07 bool, plugin bool) c06Input {
 				g.genAccept()
 			case k < 70:
 				g.genTransmit()
-			case k < 88:
+			case k < 86:
 				g.genEvents()
-			case k < 98:
+			case k < 95:
 				g.genChain()
+			case k < 98:
+				g.genProviderError()
 			default:
 				g.restart()
 			}
@@ -1160,7 +1248,139 @@ func c06PollRace(t *testing.T, trials int) int {
 	return lost
 }
 
+// c06CacheReadRace: on the real util.Cache, readers of an expired, not yet collected key race a
+// Set that renews it.  A Get must be read-only: afterwards the fresh entry is there.
+func c06CacheReadRace(trials int) int {
+	const workers = 4
+	var lost atomic.Int64
+	var all sync.WaitGroup
+	for w := 0; w < workers; w++ {
+		n := trials / workers
+		if w == 0 {
+			n += trials % workers
+		}
+		all.Add(1)
+		go func() {
+			defer all.Done()
+			for i := 0; i < n; i++ {
+				c := util.NewCache[int](time.Hour)
+				c.Set("w", 1, time.Nanosecond)
+				for t0 := time.Now(); time.Since(t0) < 2*time.Nanosecond; {
+				}
+				var wg sync.WaitGroup
+				for r := 0; r < 3; r++ {
+					wg.Add(1)
+					go func() { defer wg.Done(); c.Get("w") }()
+				}
+				wg.Add(1)
+				go func() { defer wg.Done(); c.Set("w", 2, time.Hour) }()
+				wg.Wait()
+				if v, ok := c.Get("w"); !ok || v != 2 {
+					lost.Add(1)
+				}
+			}
+		}()
+	}
+	all.Wait()
+	return int(lost.Load())
+}
+
+// c06CoordReadRace: the same through a real, started coordinator in a bubble.  K reports are
+// accepted at 20.137 s (window 5 s: expired at 25.137 s, the cache GC only runs at 30 s).  At
+// 26 s un-timed goroutines — really concurrent — accept the work ids again while others read
+// them through ShouldTransmit, PreProcess, FilterResults and FilterProposals.  Afterwards every
+// acceptance must be known: offered for transmission and withheld by all three filters.
+func c06CoordReadRace(t *testing.T, trials int) int {
+	lost := 0
+	r := NewRng(99)
+	const K = 32
+	wks := make([]*c06Work, K)
+	ups := make([]ocr2keepers.ReportedUpkeep, K)
+	var ps []ocr2keepers.UpkeepPayload
+	var rs []ocr2keepers.CheckResult
+	var cs []ocr2keepers.CoordinatedBlockProposal
+	for i := range wks {
+		wks[i] = c06NewWork(r, i%2)
+		ups[i] = c06Reported(c06Up{W: wks[i].W, UID: wks[i].UID, B: 3})
+		uid, trig := c06UID(wks[i].UID), c06Trigger(3, i)
+		ps = append(ps, ocr2keepers.UpkeepPayload{UpkeepID: uid, Trigger: trig, WorkID: wks[i].W})
+		rs = append(rs, ocr2keepers.CheckResult{UpkeepID: uid, Trigger: trig, WorkID: wks[i].W})
+		cs = append(cs, ocr2keepers.CoordinatedBlockProposal{UpkeepID: uid, Trigger: trig, WorkID: wks[i].W})
+	}
+	for i := 0; i < trials; i++ {
+		synctest.Test(t, func(t *testing.T) {
+			ctx := context.Background()
+			prov := &c06Events{start: time.Now()}
+			c := coordinator.NewCoordinator(prov, utg, config.OffchainConfig{PerformLockoutWindow: 5000}, quietLogger)
+			go c.Start(ctx)
+			synctest.Wait()
+			time.Sleep(20*time.Second + 137*time.Millisecond)
+			synctest.Wait()
+			for _, wk := range wks {
+				c.Accept(c06Reported(c06Up{W: wk.W, UID: wk.UID, B: 7}))
+			}
+			time.Sleep(6 * time.Second)
+			synctest.Wait()
+			var bad atomic.Int64
+			var wg sync.WaitGroup
+			readers := []func(){
+				func() {
+					for _, u := range ups {
+						c.ShouldTransmit(u)
+					}
+				},
+				func() { c.PreProcess(ctx, ps) },
+				func() { c.FilterResults(rs) },
+				func() { c.FilterProposals(cs) },
+			}
+			for _, rd := range readers {
+				wg.Add(1)
+				go func() { defer wg.Done(); rd() }()
+			}
+			for g := 0; g < 2; g++ {
+				wg.Add(1)
+				go func() {
+					defer wg.Done()
+					for j := g; j < K; j += 2 {
+						if !c.Accept(ups[j]) {
+							bad.Add(1)
+						}
+					}
+				}()
+			}
+			wg.Wait()
+			synctest.Wait()
+			for _, u := range ups {
+				if !c.ShouldTransmit(u) {
+					bad.Add(1)
+				}
+			}
+			if out, _ := c.PreProcess(ctx, ps); len(out) != 0 {
+				bad.Add(1)
+			}
+			if out, _ := c.FilterResults(rs); len(out) != 0 {
+				bad.Add(1)
+			}
+			if out, _ := c.FilterProposals(cs); len(out) != 0 {
+				bad.Add(1)
+			}
+			if bad.Load() > 0 {
+				lost++
+			}
+			c.Close()
+			synctest.Wait()
+		})
+	}
+	return lost
+}
+
 func c06RaceCases(t *testing.T, em *Emitter) {
+	{
+		n := tierN(30000, 300000)
+		em.Emit("stress", c06RaceInput{Kind: "cache-read-race", Trials: n}, c06RaceImpl{Lost: c06CacheReadRace(n)})
+		m := tierN(3000, 30000)
+		em.Emit("stress", c06RaceInput{Kind: "coordinator-read-race", Trials: m}, c06RaceImpl{Lost: c06CoordReadRace(t, m)})
+	}
 	if em.prop == "C06" {
 		k := tierN(2000, 20000)
 		em.Emit("stress", c06RaceInput{Kind: "coordinator-poll-race", Trials: k}, c06RaceImpl{Lost: c06PollRace(t, k)})
@@ -1191,6 +1411,10 @@ func c06RunAll(t *testing.T, prop string, edge []c06Input, gen func(r *Rng, em *
 		if json.Unmarshal(raw, &rc) == nil && rc.Kind != "" { // replay of a stress case
 			if rc.Kind == "cache-race" {
 				em.Emit(names[i], rc, c06RaceImpl{Lost: c06CacheRace(rc.Trials)})
+			} else if rc.Kind == "cache-read-race" {
+				em.Emit(names[i], rc, c06RaceImpl{Lost: c06CacheReadRace(rc.Trials)})
+			} else if rc.Kind == "coordinator-read-race" {
+				em.Emit(names[i], rc, c06RaceImpl{Lost: c06CoordReadRace(t, rc.Trials)})
 			} else if rc.Kind == "coordinator-poll-race" {
 				em.Emit(names[i], rc, c06RaceImpl{Lost: c06PollRace(t, rc.Trials)})
 			} else {
